@@ -110,32 +110,44 @@ Definition frag1 (fb : flat) : bool :=
   && all_active fb && all_basic fb && unit_weights fb && plain_geometry fb && size_matches1 fb
   && free_levels_nonempty fb && ((0 <? fl_trials fb) || no_rejecting_constraints fb).
 
-(** * F2: F1 widened by weights - weighted levels of the crossed factors and a
-    crossing weight.  A round is then a permutation of the multiset in which
-    every admitted combination occurs (weight of the combination) x (crossing
-    weight) times ([crossing_is_unweighted = false]: the memoised counter /
-    unranker for permutations with copies); [fl_sizes] is the sum of the
-    combination weights. *)
+(** * F2: F1 widened by weights and by further crossings.
+
+    Weights: weighted levels of the crossed factors and crossing weights.  A
+    round is then a permutation of the multiset in which every admitted
+    combination occurs (weight of the combination) x (crossing weight) times
+    ([crossing_is_unweighted = false]: the memoised counter / unranker for
+    permutations with copies); [fl_sizes] is the sum of the combination weights.
+
+    Further crossings (MultiCrossBlock): the first crossing is the one the
+    enumerator samples from ([design_partition]: the first with sustain 1); the
+    other crossings are enforced by rejection ([__are_constraints_violated]:
+    [combinations_mismatched_weights] on every repetition).  All crossings are
+    over plain factors, without preamble and with sustain 1. *)
 Definition level_weight_nat (fb : flat) (f l : nat) : nat :=
   match nth_error (levels_of fb f) l with Some lv => lv_weight lv | None => 1 end.
 Definition combo_weight (fb : flat) (di : asg) : nat :=
   fold_right (fun p acc => level_weight_nat fb (fst p) (snd p) * acc) 1 di.
-Definition weights_ok (fb : flat) : bool :=
-  match fl_weights fb with [w] => 0 <? w | _ => false end.
-Definition size_matches2 (fb : flat) : bool :=
-  match fl_crossings fb, fl_sizes fb with
-  | [c], [s] => (s =? list_sum (map (fun ls => combo_weight fb (combine c ls)) (allowed_combos fb c))) && (0 <? s)
-  | _, _ => false
-  end.
+Definition crossing_plain (fb : flat) (c : list nat) : bool :=
+  nodupb c && forallb (fun f => f <? length (fl_design fb)) c.
+Definition crossing_size_ok (fb : flat) (cs : list nat * nat) : bool :=
+  (snd cs =? list_sum (map (fun ls => combo_weight fb (combine (fst cs) ls)) (allowed_combos fb (fst cs)))) && (0 <? snd cs).
+Definition plain_crossings (fb : flat) : bool :=
+  let k := length (fl_crossings fb) in
+  (0 <? k) && forallb (crossing_plain fb) (fl_crossings fb)
+  && (length (fl_sustains fb) =? k) && forallb (Nat.eqb 1) (fl_sustains fb)
+  && (length (fl_weights fb) =? k) && forallb (Nat.ltb 0) (fl_weights fb)
+  && (length (fl_preambles fb) =? k) && forallb (Nat.eqb 0) (fl_preambles fb) && (fl_alignment_preamble fb =? 0)
+  && (length (fl_sizes fb) =? k) && forallb (crossing_size_ok fb) (combine (fl_crossings fb) (fl_sizes fb)).
 
 Definition frag2 (fb : flat) : bool :=
-  single_plain_crossing fb && forallb (constraint_f1 fb) (fl_constraints fb) && exclude_consistent fb
-  && all_active fb && all_basic fb && weights_ok fb && plain_geometry fb && size_matches2 fb
-  && free_levels_nonempty fb && ((0 <? fl_trials fb) || no_rejecting_constraints fb).
+  plain_crossings fb && forallb (constraint_f1 fb) (fl_constraints fb) && exclude_consistent fb
+  && all_active fb && all_basic fb && free_levels_nonempty fb
+  && ((0 <? fl_trials fb) || (no_rejecting_constraints fb && (length (fl_crossings fb) =? 1))).
 
 (** the part of F1 / F2 in which no candidate is ever rejected *)
 Definition rejection_free (fb : flat) : bool :=
   forallb (fun k => match k with
                     | FCross | FConsistency | FMinimumTrials _ | FDerivation _ _ _ | FExclude _ _ => true
                     | _ => false
-                    end) (fl_constraints fb).
+                    end) (fl_constraints fb)
+  && (length (fl_crossings fb) <=? 1).    (* further crossings are enforced by rejection *)
